@@ -425,6 +425,27 @@ fn elect_sessions(
         .collect()
 }
 
+/// verif: `elect_sessions` over plain data
+#[cfg(feature = "verif_hooks")]
+pub(crate) fn verif_elect_sessions(
+    this_node: &str,
+    peer: &str,
+    candidates: &[(u64, bool, u64)],
+) -> Vec<u64> {
+    let candidates = candidates
+        .iter()
+        .map(|(pid, is_server, nonce)| SessionElectionCandidate {
+            actor_id: ActorId::Local(*pid),
+            is_server: *is_server,
+            connection_id: NonZeroU64::new(*nonce),
+        })
+        .collect();
+    elect_sessions(this_node, peer, candidates)
+        .into_iter()
+        .map(|id| id.pid())
+        .collect()
+}
+
 impl NodeServerState {
     fn register_session(
         &mut self,
